@@ -81,11 +81,12 @@ func (p *Parser) findConvergenEntries() ([]*intfEntry, error) {
 // isValidIdentifier checks if the given string is a valid identifier.
 func isValidIdentifier(id string) bool {
 	for i, r := range id {
-		if !unicode.IsLetter(r) &&
+		if !unicode.IsLetter(r) && r != '_' &&
 			!(0 < i && unicode.IsDigit(r)) {
 			return false
 		}
 	}
-	// A keyword looks like an identifier but cannot name a variable.
-	return id != "" && !token.IsKeyword(id)
+	// A keyword looks like an identifier but cannot name a variable,
+	// and the blank identifier cannot be referred to.
+	return id != "" && id != "_" && !token.IsKeyword(id)
 }
